@@ -179,7 +179,23 @@ def check(ctx):
             if bd is not coll:
                 c_, _, _ = lib.event_counts(bd, [b])
                 push_counts |= c_
-        ctx.check(not chain_bad and consumers >= 1 and (push_counts == {1} or not pushes or all(bd is coll for bd, b, t in pushes)), "C08.b",
+        # a hand-written loop in the collector itself: every iteration pushes exactly once (no `continue` that skips an entity -
+        # a de-duplication or sanity guard drops the second removal of an entity that was re-inserted in between) and the loop
+        # runs until the iterator is exhausted
+        loop_ok = True
+        own = [(b, t) for bd, b, t in pushes if bd is coll and lib.tail(mir.fn_name(op_fn(t["func"])), 1) != "extend"]
+        if own:
+            import loops as _LP
+            for (pb, pt) in own:
+                Ls_ = [L_ for L_ in _LP.find_loops(coll) if pb in L_.blocks and L_.driver is not None]
+                if not Ls_:
+                    continue        # not in a loop (e.g. a single push before the loop): counted by fresh-buffer rule
+                L_ = Ls_[0]
+                cnt_, _ = _LP.iteration_counts(coll, L_, [pb])
+                if cnt_ != {1} or L_.exits:
+                    loop_ok = False
+                    push_counts |= cnt_
+        ctx.check(loop_ok and not chain_bad and consumers >= 1 and (push_counts == {1} or not pushes or all(bd is coll for bd, b, t in pushes)), "C08.b",
                   "collect_component_removals:forwards-every-removal", "%s:%d" % (coll.file, coll.line),
                   "every entity yielded by RemovedComponents::read() is forwarded (no filtering adaptor, unconditional push)",
                   "the removal collector drops some removals (adaptors %s, push counts %s): a removal followed by a re-insert before the poll would never be reacted to" % (chain_bad, sorted(push_counts)))
